@@ -46,6 +46,9 @@ def case_filter(prop, tier):
     raise KeyError(prop)
 
 
+COVER_MAX_RETRIES = 1  # spec -> code coverage (EstablishCover) is demanded for the retry cases up to this N
+
+
 def behaviours(prop, tier, c, mode, rng):
     """Outcome scripts for one case."""
     quick = tier == "quick"
@@ -57,7 +60,8 @@ def behaviours(prop, tier, c, mode, rng):
         # the outcomes are consumed by the successive connect-stage operations (TCP, then TLS when
         # the scheme is https); an exhausted script means "ok"
         k = 0
-        for ln in range(0, n + 3):
+        maxlen = max(n + 2, stages * (n + 1)) if n <= COVER_MAX_RETRIES else n + 2
+        for ln in range(0, maxlen + 1):
             for seq in itertools.product(alphabet, repeat=ln):
                 if seq and seq[-1] == "ok":
                     continue  # same run as the shorter script
@@ -76,6 +80,13 @@ def behaviours(prop, tier, c, mode, rng):
             yield ["post:" + f], None
             if n:
                 yield ["ConnectError", "post:" + f], None
+        if n <= COVER_MAX_RETRIES:
+            # for the cases on which spec -> code coverage is demanded (EstablishCover): the product of
+            # EVERY outcome sequence that ends in an established connection with every later failure
+            for ln in range(0, stages * (n + 1) + 1):
+                for seq in itertools.product(["ok", "ConnectError", "ConnectTimeout"], repeat=ln):
+                    for f in ("ConnectError", "ConnectTimeout", "ReadError"):
+                        yield ["@connect"] + list(seq) + ["post:" + f], None
         return
     base = E.record(c, [], None, mode)
     est = [o for o in base["ops"] if o["op"] in ("tcp", "uds", "tls", "read", "write")]
@@ -177,6 +188,9 @@ def run_into(chk, prop, tier):
     verdicts, stats = E.validate(traces, groups=GROUP[prop])
     rejected = [(t, v) for t, v in zip(traces, verdicts) if v[0] != "ACCEPT"]
     accepted = [t for t, v in zip(traces, verdicts) if v[0] == "ACCEPT"]
+    # 3b. SPECIFICATION -> CODE: every behaviour of Establish on the exercised cases was reproduced by the code
+    if prop == "C20":
+        chk.coverage["spec_to_code"] = spec_to_code([t for t in accepted if t["case"]["retries"] <= COVER_MAX_RETRIES], prop, tier)
     # canaries
     can = canaries(accepted, GROUP[prop])
     if prop == "C11":
@@ -232,6 +246,44 @@ def run_into(chk, prop, tier):
         "hosts, markers and timeout values are distinct by construction, so an argument identifies its source",
         "one request per pool; sync and async twins both exercised",
     ]
+
+
+def spec_to_code(accepted, prop, tier):
+    """TLC enumerates every behaviour of Establish for the cases that were exercised; each must be among
+    the accepted recorded logs (spec/EstablishCover.tla).  -> coverage record; a behaviour of the
+    specification that the code never reproduced is a machinery failure (incomplete outcome scripts) -
+    unless the logs were rejected anyway, in which case the violations speak for themselves."""
+    import json
+    import os
+    import re
+    import tempfile
+
+    tlc.sany("EstablishCover.tla")
+    body, seen = [], set()
+    for t in accepted:
+        rec = {"case": t["case"], "ops": t["ops"], "result": t["result"]}
+        k = json.dumps(rec, sort_keys=True)
+        if k not in seen:
+            seen.add(k)
+            body.append(rec)
+    os.makedirs(tlc.WORK, exist_ok=True)
+    fd, path = tempfile.mkstemp(prefix="cover_", suffix=".json", dir=tlc.WORK)
+    try:
+        with os.fdopen(fd, "w") as f:
+            json.dump(body, f)
+        cfg = "SPECIFICATION Spec\nCONSTANTS\n  Cases <- RecCases\n  Deviations <- NoDev\nINVARIANT Reproduced\n"
+        r = tlc.model_check("EstablishCover", cfg, workers=4, tag="cover", env={"COVER_FILE": path})
+    finally:
+        os.unlink(path)
+    if r["errors"]:
+        raise tlc.MachineryError("EstablishCover failed:\n" + "\n".join(r["errors"][:3]) + r["raw"][-1500:])
+    unc = re.findall(r'"UNCOVERED", "(.*)"', r["raw"])
+    terminal = None
+    out = {"cases": len({json.dumps(b["case"], sort_keys=True) for b in body}), "recorded_distinct_logs": len(body), "spec_states": r["distinct"], "spec_behaviours_not_reproduced": len(unc)}
+    if unc:
+        sample = [u.encode().decode("unicode_escape")[:400] for u in unc[:3]]
+        raise tlc.MachineryError(f"spec -> code: {len(unc)} behaviour(s) of Establish were never reproduced by the real code on the exercised cases (outcome scripts incomplete, or the code cannot do it), e.g. {sample}")
+    return out
 
 
 def canaries(accepted, group):
